@@ -31,6 +31,18 @@ func (c *notCond) string() string {
 	if strings.HasPrefix(next, "(") {
 		return fmt.Sprintf("not %s", c.notC.string())
 	}
-	splitted := strings.Split(next, " ")
-	return strings.Join(append([]string{splitted[0], "not"}, splitted[1:]...), " ")
+	// "not" goes behind the key, which is the first token and may be quoted
+	end := strings.Index(next, " ")
+	if strings.HasPrefix(next, "\"") {
+		for end = 1; end < len(next) && next[end] != '"'; end++ {
+			if next[end] == '\\' {
+				end++
+			}
+		}
+		end++
+	}
+	if end < 0 || end > len(next) {
+		end = len(next)
+	}
+	return next[:end] + " not" + next[end:]
 }
